@@ -57,14 +57,14 @@ class C13(Prop):
                    'iterations, estimation over a grown / changed list reaches the cold-start optimum: |L_warm - L_cold| <= 1e-3*(L_uniform - '
                    'L_cold) + 1e-9*(1 + L_cold), losses recomputed by the harness from model.project answers.')
     rule = ('seeded random cases: kind history (2..4 steps; each step = structure, query kinds, total, engine, options, callback), kind callback, '
-            'kind warm (2..3 steps, one engine, iters 600 quick / 3000 thorough); domains of 2..4 attributes with sizes 2..4 (<= 3 attributes for kind warm); '
+            'kind warm (2..3 steps, one engine, iters 1000 quick / 3000 thorough); domains of 2..4 attributes with sizes 2..4 (<= 3 attributes for kind warm); '
             'non-trivial = at least two estimate calls on the same estimator; distinct by the full case dict')
     trusted_base = ['numpy / scipy.sparse content comparison', 'copy.deepcopy', 'python multiprocessing fork pool of pv.runner']
     assumptions = ['bounded: only the generated histories are decided (<= 4 calls, <= 4 attributes of size <= 4)',
                    'RDA/IG equality with a fresh estimator is asserted to rtol 1e-9 / atol 1e-12*total (random eigsh start vector)',
                    'estimate() writes the key "callback" into an options dict supplied by the caller; the statement lists the measurement list, '
                    'arrays and zero specification only, so the options dict is compared apart from that key',
-                   'warm-start optimum: compared at 600 (quick) / 3000 (thorough) iterations on noisy measurements of strictly positive tables, tolerance 1e-3 of the initial gap']
+                   'warm-start optimum: compared at 1000 (quick) / 3000 (thorough) iterations on noisy measurements of strictly positive tables, tolerance 1e-3 of the initial gap']
     quick_budget_s = 85
     thorough_budget_s = 900
 
@@ -93,7 +93,7 @@ class C13(Prop):
 
         # warm-start optimum (long): first, so that they run alongside the short cases
         n_warm = 3 if tier == 'quick' else 12
-        warm_iters = 600 if tier == 'quick' else 3000
+        warm_iters = 1000 if tier == 'quick' else 3000
         for i in range(n_warm):
             for eng in ENGINES:
                 dom = MC.rand_dom(rng, int(rng.choice([2, 3, 3])), lo=2, hi=3)
